@@ -94,10 +94,11 @@ for _pid in ("C03", "C14", "C06"):
     MODULES[_pid] = MODULES[_pid] + ["Boario.Properties.Coherence"]
 # element-wise formulas of the source = the model's definitions (Properties/Formulas.lean over the regenerated Gen/Formulas.lean)
 FORMULAS = {
-    "C14": ["Gen.overprod_is_code"],
+    "C14": ["Gen.overprod_is_code", "Gen.overprodPhase_is_code"],
     "C02": ["Gen.overprod_is_code", "Gen.capacity_is_code", "Gen.capNegative_is_code", "Gen.xOpt_is_code", "Gen.cons_is_code",
             "Gen.production_max_is_code", "Gen.ordersFrom_is_code", "Gen.needWith_is_code"],
-    "C03": ["Gen.xOpt_is_code", "Gen.capacity_is_code", "Gen.cons_is_code", "Gen.cons_base_is_code", "Gen.production_max_is_code"],
+    "C03": ["Gen.xOpt_is_code", "Gen.capacity_is_code", "Gen.cons_is_code", "Gen.cons_base_is_code", "Gen.production_max_is_code",
+            "Gen.production_is_code", "Gen.productionPhase_is_code"],
     "C18": ["Gen.cons_is_code", "Gen.cons_base_is_code", "Gen.zProd_is_code", "Gen.altShare_is_code", "Gen.ordersFrom_is_code", "Gen.gapOpen_is_code"],
     "C06": ["Gen.needWith_is_code", "Gen.zProd_is_code", "Gen.altShare_is_code", "Gen.ordersFrom_is_code", "Gen.gapOpen_is_code", "Gen.goal_is_code"],
     "C04": ["Gen.deliverCell_is_code", "Gen.deliveries_are_code"],
@@ -110,7 +111,8 @@ FORMULAS = {
 }
 # one Lean module per topic, so that a changed formula only breaks the theorems about it
 FORMULA_MODULE = {
-    "Gen.overprod_is_code": "FormulasOverprod",
+    "Gen.overprod_is_code": "FormulasOverprod", "Gen.overprodPhase_is_code": "FormulasOverprod",
+    "Gen.production_is_code": "FormulasProduction", "Gen.productionPhase_is_code": "FormulasProduction",
     "Gen.capacity_is_code": "FormulasProduction", "Gen.capNegative_is_code": "FormulasProduction", "Gen.xOpt_is_code": "FormulasProduction",
     "Gen.cons_is_code": "FormulasProduction", "Gen.cons_base_is_code": "FormulasProduction", "Gen.production_max_is_code": "FormulasProduction",
     "Gen.deliverCell_is_code": "FormulasDistribute", "Gen.deliveries_are_code": "FormulasDistribute", "Gen.stockUse_is_code": "FormulasDistribute",
